@@ -182,6 +182,29 @@ BASEFLAGS = ["-std=c++11", "-O1", "-g", "-DNDEBUG", "-DGDSTK_VERIF", "-I" + os.p
 ASANFLAGS = ["-fsanitize=address,undefined", "-fno-sanitize-recover=all", "-fno-omit-frame-pointer"]
 
 
+def prune_cache(keep=None, max_impl=6, min_age_s=900):
+    """Bound the cache: keep the newest `max_impl` implementation builds; never touch anything younger than
+    `min_age_s` (another check may be using it right now) nor the build being made."""
+    now = time.time()
+    impls = sorted(glob.glob(os.path.join(CACHE, "impl-*")), key=lambda p: os.path.getmtime(p), reverse=True)
+    impls = [p for p in impls if os.path.isdir(p)]
+    doomed = [p for p in impls[max_impl:] if p != keep and now - os.path.getmtime(p) > min_age_s]
+    for p in doomed:
+        shutil.rmtree(p, ignore_errors=True)
+    live_keys = set(os.path.basename(p).split("-")[1] for p in glob.glob(os.path.join(CACHE, "impl-*")) if os.path.isdir(p))
+    if keep:
+        live_keys.add(os.path.basename(keep).split("-")[1])
+    for h in glob.glob(os.path.join(CACHE, "harness-*")):
+        if not os.path.isdir(h):
+            continue
+        k = os.path.basename(h).split("-")[1]
+        if k not in live_keys and now - os.path.getmtime(h) > min_age_s:
+            shutil.rmtree(h, ignore_errors=True)
+    for r in glob.glob(os.path.join(CACHE, "run-*")):
+        if os.path.isdir(r) and now - os.path.getmtime(r) > 6 * 3600:
+            shutil.rmtree(r, ignore_errors=True)
+
+
 def build_impl(asan=False):
     """compile /repo's current working tree into .cache/impl-<hash>[-asan]/libgdstk.a"""
     key = repo_hash()
@@ -190,13 +213,7 @@ def build_impl(asan=False):
     with Lock("impl" + ("-asan" if asan else "")):
         if os.path.exists(lib):
             return lib, key, None
-        # drop older builds of the same flavour
-        for old in glob.glob(os.path.join(CACHE, "impl-*")):
-            if old.endswith("-asan") == asan and old != d:
-                shutil.rmtree(old, ignore_errors=True)
-        for old in glob.glob(os.path.join(CACHE, "harness-*")):
-            if key not in old:
-                shutil.rmtree(old, ignore_errors=True)
+        prune_cache(keep=d)
         os.makedirs(d, exist_ok=True)
         flags = BASEFLAGS + (ASANFLAGS if asan else [])
         procs = []
